@@ -29,7 +29,7 @@ pub fn def() -> CheckDef {
         runs_quick: 25_000,
         runs_thorough: 500_000,
         rule: "crash/restart injection: for every sampled (type, block size, cipher, IV, message <= 24 blocks (buffered CFB: <= 4 blocks of bytes), two schedules, two width policies) ALL cut points are enumerated; at each the instance exports its IV state and is dropped, a fresh instance is built from the exported value alone and continues under an independent schedule. evaluations = scenarios; crash points are counted in reach_probes.cut_points. distinct = distinct (type, block size, cipher, policies, schedules, message length); non-trivial = message of >= 2 units so that a cut separates data from data",
-        required_probes: &["cut_points", "buf_restart_mid_block", "restart_after_par_group", "ctr64", "ctr128le", "ofb_core_non_aes", "double_restart", "ctr_next_counter_block_seen", "partner_direction_compared"],
+        required_probes: &["cut_points", "start_far", "buf_restart_mid_block", "restart_after_par_group", "ctr64", "ctr128le", "ofb_core_non_aes", "double_restart", "ctr_next_counter_block_seen", "partner_direction_compared"],
         r#gen,
         exec,
         components: "real code: every stateful public type of the nine crates with its IvState / get_state / from_state / InnerIvInit implementations; stub: block cipher in most runs, real ciphers in the rest; crash = drop of the instance (only the exported bytes survive); no reference model: the public chaining value is computed from the real input/output bytes of the uninterrupted twin",
@@ -55,6 +55,18 @@ fn r#gen(rng: &mut Rng, thorough: bool) -> Scn {
     };
     s.set_num("len", len as u128);
     s.set_num("double", rng.chance(1, 4) as u128);
+    if (fam == FAM_STREAM || fam == FAM_CORE) && mode != "ofb" && rng.chance(2, 5) {
+        // start far into the keystream: carries of the counter arithmetic sit there
+        let lim = super::c04::flavor_of(mode).map(super::c04::limit_blocks).unwrap_or(u128::MAX / 512);
+        let p: u128 = match rng.below(5) {
+            0 => (1u128 << 32) - 1 - rng.below(20) as u128,
+            1 => (1u128 << 64) - 1 - rng.below(20) as u128,
+            2 => (1u128 << 63) - rng.below(20) as u128,
+            3 => rng.u128() >> rng.below(100),
+            _ => rng.below(1 << 20) as u128,
+        };
+        s.set_num("startblk", p.min(lim.saturating_sub(1 << 12)));
+    }
     for who in 0..2u8 {
         let w = s.pol[who as usize].max_width() as u64;
         for _ in 0..1 + rng.usize(if thorough { 5 } else { 4 }) {
@@ -108,7 +120,26 @@ fn exec(scn: &Scn, ctx: &mut Ctx) -> Verdict {
     for o in &scn.ops {
         ctx.sig.u((o.who as u64) << 40 | (o.via as u64) << 32 | o.n.min(99));
     }
-    let mk = |tag: u8| Inst::make(fam, &scn.mode, bs, scn.cipher, &scn.key, &scn.iv, tag, 0);
+    let startblk = scn.num("startblk");
+    if startblk != 0 && (scn.mode == "ofb" || !(fam == FAM_STREAM || fam == FAM_CORE) || startblk > u128::MAX / 1024) {
+        invalid!("start position");
+    }
+    ctx.probe_if(startblk > u32::MAX as u128, "start_far");
+    let mk = |tag: u8| -> Result<Inst, MkErr> {
+        let mut i = Inst::make(fam, &scn.mode, bs, scn.cipher, &scn.key, &scn.iv, tag, 0)?;
+        if startblk != 0 {
+            let op = if fam == FAM_CORE { crate::scn::Op::new("setpos").p(startblk) } else { crate::scn::Op::new("seek").p(startblk * bs as u128).ty(1) };
+            // positions beyond u64 need the u128 seek: Inst::step picks u64/usize, so go through the object
+            let ok = match &mut i {
+                Inst::S(s) => s.seek(2, startblk * bs as u128).is_ok(),
+                _ => i.step(&op, &[], Vec::new()).is_ok(),
+            };
+            if !ok {
+                return Err(MkErr::Unsupported);
+            }
+        }
+        Ok(i)
+    };
     let mut u = match mk(2) {
         Ok(i) => i,
         Err(MkErr::Unsupported) => invalid!("unsupported"),
